@@ -86,7 +86,7 @@ def handleCluster (fs : List (String × String)) : String := Id.run do
     let [tok0, obsS] := os.splitOn ">" | return s!"PARSE op{idx}"
     let blocked := tok0.endsWith "!blocked"
     let tok := if blocked then (tok0.dropEnd 8).toString else tok0
-    if blocked && bad.isNone then bad := some s!"call-blocked@op{idx}:{tok}"
+    if blocked && bad.isNone then bad := some s!"call-blocked-or-panicked@op{idx}:{tok}"
     let some post := parseObs obsS | return s!"PARSE obs{idx}"
     let parts := tok.splitOn ":"
     let x := parts.getD 1 "?"
